@@ -10,7 +10,7 @@
    the harness tests on every generated string.  Instances of all hypotheses and grammars: the
    Examples ex_... at the end of Proofs/C11.v. *)
 Require Import OV.Base.Bytes OV.Base.Py OV.Base.PyInt OV.Base.Str OV.Base.C11_Lib.
-Require Import OV.Gen.C11_Netutils OV.Gen.C11_Code OV.Model.C11 OV.Model.C11_Spec OV.Proofs.C11_V4 OV.Proofs.C11_V6 OV.Proofs.C11.
+Require Import OV.Gen.C11_Netutils OV.Gen.C11_Code OV.Model.C11 OV.Model.C11_Spec OV.Proofs.C11_V4 OV.Proofs.C11_V6 OV.Proofs.C11 OV.Proofs.C11_Aton OV.Proofs.C11_Net.
 Open Scope N_scope.
 
 (* library models: glibc inet_pton recognisers <-> declarative grammars *)
@@ -118,3 +118,80 @@ Theorem C11_int_validators_total : forall v,
   (exists b, gen_is_valid_icmp_code v = Ok b).
 Proof. exact int_validators_total. Qed.
 Print Assumptions C11_int_validators_total.
+
+(* ====================================================================================
+   The former library oracles, now modelled (Model/C11.v sections 4 and 5; tied by correspondence
+   through the ops aton / na_aton / net / net6) — the validators without oracle arguments:
+   valid_ipv4 strict s, valid_ip s, valid_cidr s, valid_ipv6_cidr s. *)
+
+(* socket.inet_aton (glibc): 1..4 C integer literals (decimal / 0 octal / 0x hex) joined by '.',
+   the last one filling the remaining bytes; whatever follows the first C white-space character
+   is ignored; NUL or a lone surrogate anywhere -> ValueError *)
+Theorem C11_inet_aton_iff : forall s,
+  inet_aton s = AOk true <->
+  cstr_ok s = true /\
+  exists ps vs rest, Forall2 c_literal ps vs /\ aton_values vs /\
+                     s = dots ps ++ rest /\ (rest = [] \/ exists w t, rest = w :: t /\ c_space w).
+Proof. exact inet_aton_iff. Qed.
+Print Assumptions C11_inet_aton_iff.
+
+(* is_valid_ipv4(s, strict=False) and is_valid_ip(s), unconditionally *)
+Theorem C11_ipv4_nonstrict_iff : forall s,
+  valid_ipv4 false s = AOk true <-> s <> [] /\ ~ In 58 s /\ cstr_ok s = true /\ aton_text s.
+Proof. exact valid_ipv4_nonstrict_iff. Qed.
+Print Assumptions C11_ipv4_nonstrict_iff.
+
+Theorem C11_ip_iff : forall s,
+  valid_ip s = AOk true <->
+  s <> [] /\ ((~ In 58 s /\ cstr_ok s = true /\ aton_text s) \/ ipv6_scoped_text s).
+Proof. exact valid_ip_iff. Qed.
+Print Assumptions C11_ip_iff.
+
+(* netaddr's netmask / hostmask bit tests <-> 2^w - 2^j or 2^j - 1 *)
+Theorem C11_mask_iff : forall v6 m, m < 2 ^ ip_width v6 ->
+  (is_netmask v6 m || is_hostmask m = true <-> exists j, j <= ip_width v6 /\ (m = 2 ^ ip_width v6 - 2 ^ j \/ m = 2 ^ j - 1)).
+Proof. exact mask_iff. Qed.
+Print Assumptions C11_mask_iff.
+
+(* the integer value of an IPv6 text (used for IPv6 netmasks / hostmasks): model function <-> the
+   declarative reading (groups as hexadecimal 16-bit units, dotted quad as two units, "::" as zeros) *)
+Theorem C11_ipv6_value_iff : forall s m, pton6_value s = Some m <-> exists us, ipv6_units s us /\ m = units_to_N us.
+Proof. exact pton6_value_iff. Qed.
+Print Assumptions C11_ipv6_value_iff.
+
+Theorem C11_ipv4_value_iff : forall s m, pton4_value s = Some m <-> quad_value s m.
+Proof. exact pton4_value_iff. Qed.
+Print Assumptions C11_ipv4_value_iff.
+
+(* netaddr.IPNetwork(text): an address of one family, optionally '/' and a prefix text *)
+Theorem C11_ipnetwork_iff : forall s, ipnetwork s = AOk true <-> network_text false s \/ network_text true s.
+Proof. exact ipnetwork_iff. Qed.
+Print Assumptions C11_ipnetwork_iff.
+
+(* is_valid_cidr, for ALL strings: address '/' prefix, the prefix being an int() literal in
+   0..32 / 0..128 or (when int() refuses it) a netmask / hostmask of the same family *)
+Theorem C11_cidr_iff : forall s,
+  valid_cidr s = AOk true <->
+  exists a p, s = a ++ 47 :: p /\
+              ((dotted_quad a /\ prefix_text false p) \/ (ipv6_text a /\ prefix_text true p)).
+Proof. exact valid_cidr_iff. Qed.
+Print Assumptions C11_cidr_iff.
+
+Theorem C11_ipv6_cidr_iff : forall s,
+  valid_ipv6_cidr s = AOk true <->
+  exists a, ipv6_text a /\ (s = a \/ exists p, s = a ++ 47 :: p /\ prefix_text true p).
+Proof. exact valid_ipv6_cidr_iff. Qed.
+Print Assumptions C11_ipv6_cidr_iff.
+
+(* the family the property names: address '/' decimal digits — in range or not *)
+Theorem C11_cidr_decimal_prefix : forall a n, (dotted_quad a \/ ipv6_text a) ->
+  (valid_cidr (a ++ 47 :: dec_of_N n) = AOk true <-> n <= (if in_dec N.eq_dec 58 a then 128 else 32)).
+Proof. exact cidr_decimal_prefix. Qed.
+Print Assumptions C11_cidr_decimal_prefix.
+
+(* every address validator answers, with no premise *)
+Theorem C11_validators_total_closed : forall s,
+  (exists b, valid_ipv4 false s = AOk b) /\ (exists b, valid_ip s = AOk b) /\
+  (exists b, valid_cidr s = AOk b) /\ (exists b, valid_ipv6_cidr s = AOk b).
+Proof. exact validators_total_closed. Qed.
+Print Assumptions C11_validators_total_closed.
